@@ -7,6 +7,8 @@
 //	                                              content after a genuine handshake (keyed.go)
 //	c32 dg <suite> <vers> <typ> <plain> <mode> <n> <outer> | ...  T2: the real halfConn.decrypt (hook) on a re-framed
 //	                                              protected record vs the Lean model of its guards (dg.go)
+//	c32 kx <eskx|dskx|rckx|eckx|dckx> ...        T2: the real ServerKeyExchange / ClientKeyExchange parameter parsers (hook) on
+//	                                              generated, truncated and mutated messages vs the Lean model (kx.go)
 //	c32 rlen <cfg> <dir> <k> <cut|ins> <typ> <n>  T3: the k-th PROTECTED record re-framed to length n (forge.go)
 //	c32 hsf <cfg> <dir> <k> <mt> <node> <op> <arg> <field>  T3: one field of the k-th plaintext handshake message edited,
 //	                                              every enclosing length re-encoded consistently
@@ -413,6 +415,8 @@ func exec(line string) zv.Out {
 		return execDg(line, f)
 	case "keyed":
 		return execKeyed(f)
+	case "kx":
+		return execKx(f)
 	}
 	return zv.Out{Go: "bad-op"}
 }
@@ -745,6 +749,7 @@ func gen(g *zv.Gen) {
 	genRd(g)
 	genRdFraming(g)
 	genDg(g)
+	genKx(g)
 	genMITM(g)
 	genForge(g)
 	genKeyed(g)
@@ -758,5 +763,5 @@ func gen(g *zv.Gen) {
 
 func init() {
 	zv.Register(&zv.Prop{ID: "C32", Topic: "c32", Gen: gen, Exec: exec, Timeout: 40 * time.Second,
-		Rule: "rd: generated record streams (handshake bytes of simple messages cut into records, interleaved warning alerts / CCS / empty / wrong-type / wrong-version / oversized records, runs around maxUselessRecords, lengths around maxHandshake, truncation and byte damage; plus a systematic framing sweep: every record type x every length 0..20 x three reassembly states x several contents, every alert level / description, runs of zero-length records of each type) through the real reader (hook) vs the Lean model and a reference framer; dg: the real encrypt (hook, fixed keys) produces a protected record for every record-protection class (none, RC4, 3DES / AES CBC with implicit and explicit IV and both MAC sizes, AES-GCM, ChaCha20, the three TLS 1.3 suites), the record is re-framed to EVERY length 0..genuine+20 (and outer types), and the real halfConn.decrypt is compared with the Lean model of its guards; mitm: real zcrypto client/server handshakes + data exchange (30 configurations: TLS 1.0-1.3, RSA / ECDHE / finite-field DHE key exchange, every record-protection class, key types, tickets, client auth) through a transport that flips a bit / truncates and closes / inserts a byte / re-chunks / re-frames at one position (sampled positions in quick, every position in thorough), either direction; rlen: once protection is active every protected record of the exchange re-framed to every length 0..20 and around every block / MAC / IV / nonce / tag boundary (header consistent with the bytes that follow), as replacement or as inserted record, with every content type; hsf: every plaintext handshake message parsed into its field tree and re-encoded with consistent lengths after ONE field was emptied / shortened / cut to one byte / lengthened / dropped / doubled / filled with 00 or ff / given a length prefix that lies by one, the body cut to every short length, the message type set to every value, every one-byte enum field (hash id, signature id, curve type, point format, compression, certificate type, status type, name type, ...) set to every value 0..255 (once per field and key exchange in quick, everywhere in thorough), two-byte code points set to boundary values; alert: a plaintext alert of every level / description inserted in front of every record; frag: the handshake stream re-framed into records of 1..20, 31..33, 63..65, 255..257, 1024 bytes; keyed: the peer itself, holding the keys, sends correctly protected records after a genuine handshake: alerts of every level / description, every content type, records of every small length, runs of ignorable records around maxUselessRecords, post-handshake handshake messages of every type, KeyUpdate with every request value, NewSessionTicket with edited fields, messages split over records; rand: random / record-shaped / handshake-shaped byte streams fed to a client and to a server; a case is one distinct line"})
+		Rule: "rd: generated record streams (handshake bytes of simple messages cut into records, interleaved warning alerts / CCS / empty / wrong-type / wrong-version / oversized records, runs around maxUselessRecords, lengths around maxHandshake, truncation and byte damage; plus a systematic framing sweep: every record type x every length 0..20 x three reassembly states x several contents, every alert level / description, runs of zero-length records of each type) through the real reader (hook) vs the Lean model and a reference framer; dg: the real encrypt (hook, fixed keys) produces a protected record for every record-protection class (none, RC4, 3DES / AES CBC with implicit and explicit IV and both MAC sizes, AES-GCM, ChaCha20, the three TLS 1.3 suites), the record is re-framed to EVERY length 0..genuine+20 (and outer types), and the real halfConn.decrypt is compared with the Lean model of its guards; kx: the real key-exchange parameter parsers (hook: serverKeyExchangeMsg / clientKeyExchangeMsg.unmarshal + processServerKeyExchange of the ECDHE and DHE key agreements incl. verifyParameters, processClientKeyExchange of the RSA, ECDHE and DHE key agreements) on generated messages (every curve incl. unsupported ones, genuine / random / short / long / low-order / compressed shares, every signature scheme and (hash, signature) byte, TLS 1.0-1.2, consistent and lying length fields, DHE parameters with leading zeros, Ys = 0 / p / > p, every kind of client signature list), EVERY prefix of each, one byte removed / inserted / set to boundary values at every structural position, all ClientKeyExchange messages of up to 7 bytes over a small alphabet, compared with the Lean model in which every Go index and slice expression can panic (accept / reject / panic and every parsed field); mitm: real zcrypto client/server handshakes + data exchange (30 configurations: TLS 1.0-1.3, RSA / ECDHE / finite-field DHE key exchange, every record-protection class, key types, tickets, client auth) through a transport that flips a bit / truncates and closes / inserts a byte / re-chunks / re-frames at one position (sampled positions in quick, every position in thorough), either direction; rlen: once protection is active every protected record of the exchange re-framed to every length 0..20 and around every block / MAC / IV / nonce / tag boundary (header consistent with the bytes that follow), as replacement or as inserted record, with every content type; hsf: every plaintext handshake message parsed into its field tree and re-encoded with consistent lengths after ONE field was emptied / shortened / cut to one byte / lengthened / dropped / doubled / filled with 00 or ff / given a length prefix that lies by one, the body cut to every short length, the message type set to every value, every one-byte enum field (hash id, signature id, curve type, point format, compression, certificate type, status type, name type, ...) set to every value 0..255 (once per field and key exchange in quick, everywhere in thorough), two-byte code points set to boundary values; alert: a plaintext alert of every level / description inserted in front of every record; frag: the handshake stream re-framed into records of 1..20, 31..33, 63..65, 255..257, 1024 bytes; keyed: the peer itself, holding the keys, sends correctly protected records after a genuine handshake: alerts of every level / description, every content type, records of every small length, runs of ignorable records around maxUselessRecords, post-handshake handshake messages of every type, KeyUpdate with every request value, NewSessionTicket with edited fields, messages split over records; rand: random / record-shaped / handshake-shaped byte streams fed to a client and to a server; a case is one distinct line"})
 }
